@@ -49,6 +49,13 @@ def classify(text, root, err):
                 return 'F24'
         if tag == 'mainBody' and re.search(r'^[ \t]*(ATTACHMENT|APPENDIX|SCHEDULE|ANNEXURE)[^\n]*\{\{FOOTNOTE', text, re.M):
             return 'F7'
+        if tag == 'mainBody' and re.search(r'^[ \t]*FOOTNOTE +[^ \n]', text, re.M) and '{{FOOTNOTE ' in text:
+            # F47: FOOTNOTE blocks were the only content of a main body and a reference elsewhere claimed them. Causal:
+            # with a paragraph in front of every top-level FOOTNOTE line no mainBody is left empty
+            t2 = re.sub(r'^(FOOTNOTE +[^ \n])', r'x\n\1', text, flags=re.M)
+            r2 = real.convert(t2, root)
+            if t2 != text and 'etree' in r2 and not any(e['kind'] == 'missing-child' and e['tag'] == 'mainBody' for e in schema.errors(r2['etree'])):
+                return 'F47'
     if k == 'bad-attr-value' and 'anyURI' in msg:
         return 'F17'
     return None
